@@ -55,7 +55,11 @@ def scenario_of(case):
     if case.get("auto_pong") is not None:
         # the remaining connect() option; it only says whether the server's Pings are answered
         copts["auto_pong"] = case["auto_pong"]
-    return build.scenario(script, connect_opts=copts, reactions=reactions, horizon=horizon + 100.0)
+    extra = None
+    if case.get("close_write_delay"):
+        # the write that carries the client's Close takes this long: "sent" is when it has gone out
+        extra = {"faults": {"send_close": "slow:%r" % (case["close_write_delay"] * GRID)}}
+    return build.scenario(script, connect_opts=copts, reactions=reactions, horizon=horizon + 100.0, attempt_extra=extra)
 
 
 def judge(case, tr):
@@ -82,16 +86,6 @@ def judge(case, tr):
     graceful = tr.events[-1].get("graceful")
     # ---- polls
     polls = [rel(e["t"]) for e in tr.events if e["name"] == "poll"]
-    if not polls or polls[0] != 0:
-        return ("first_poll", "first Poll at %r after Ready (expected right after Ready); polls %s" % (
-            polls[:1], polls[:5])), labels
-    for a, b in zip(polls, polls[1:]):
-        if b - a < p:
-            return ("poll_too_soon", "Polls at %s and %s are closer than poll=%s" % (a, b, p)), labels
-        if b - a > 2 * p:
-            return ("poll_too_late", "Polls at %s and %s are further apart than 2*poll=%s" % (a, b, 2 * p)), labels
-    if E - polls[-1] > 2 * p:
-        return ("poll_too_late", "no Poll in the last %s s before the end at %s (poll=%s)" % (E - polls[-1], E, p)), labels
     # ---- when did the client's Close go out
     s_close = None
     pings = []
@@ -104,11 +98,29 @@ def judge(case, tr):
                 s_close = rel(e[3])
             if f.opcode == wire.PING and e[4] == "lib":
                 pings.append(rel(e[3]))
+    # a Close write that takes time d keeps the calling thread - the event loop's - busy for that long (like a slow
+    # handler): the one Poll gap around it may be longer by d, and keep-alive deadlines inside it are not judged
+    slow = (case.get("close_write_delay") or 0) * GRID if s_close is not None else 0
+    busy = (s_close - slow, s_close) if slow else None
+    # (a close() in the Ready handler whose write takes time delays the first Poll by that much)
+    if not polls or not (polls[0] == 0 or (busy and busy[0] <= 0 and polls[0] <= busy[1])):
+        return ("first_poll", "first Poll at %r after Ready (expected right after Ready); polls %s" % (
+            polls[:1], polls[:5])), labels
+    for a, b in zip(polls, polls[1:] + [E]):
+        extra = slow if busy and a <= busy[1] and b >= busy[0] else 0
+        if b - a < p and b is not E:
+            return ("poll_too_soon", "Polls at %s and %s are closer than poll=%s" % (a, b, p)), labels
+        if b - a > 2 * p + extra:
+            return ("poll_too_late", "Polls (or the end) at %s and %s are further apart than 2*poll=%s" % (a, b, 2 * p)), labels
     app_closed = any(a["action"][0] == "close" for a in tr.actions)
     server_closed_first = "closing" in names
     open_until = s_close if s_close is not None else E
     # ---- automatic pings
-    if not r:
+    if slow:
+        labels.add("slow_close_write")
+    if slow:
+        pass
+    elif not r:
         if pings:
             return ("ping_with_rate_0", "automatic Pings at %s although ping_rate is 0" % pings[:4]), labels
     else:
@@ -134,7 +146,9 @@ def judge(case, tr):
     # ---- ping timeout
     pong_times = [rel(e["t"]) for e in tr.events if e["name"] == "pong"]
     unresp = [(i, rel(e["t"])) for i, e in enumerate(tr.events) if e["name"] == "unresponsive"]
-    if unresp:
+    if slow:
+        pass
+    elif unresp:
         i, u = unresp[0]
         L = max([0.0] + [x for x in pong_times if x <= u])
         if not t:
@@ -178,6 +192,12 @@ def judge(case, tr):
             if E < horizon_rel:
                 return ("forced_without_timeout", "close_timeout=%r but the connection was dropped at %s, before the "
                         "server's EOF at %s" % (c, E, horizon_rel)), labels
+    elif s_close is None and not server_closed_first and not unresp and not app_closed:
+        # nothing ever started a closing handshake, no timeout is due: the connection lasts until the server's EOF
+        horizon_rel = case["horizon"] * GRID
+        if E < horizon_rel:
+            return ("dropped_for_no_reason", "no Close frame was sent or received and no ping timeout fired, but the "
+                    "connection ended at %s, before the server's EOF at %s: %r" % (E, horizon_rel, tr.events[-1])), labels
     elif s_close is not None and server_closed_first and not app_closed:
         # the echo of the server's Close: completed when the server drops the connection (the EOF at the horizon)
         horizon_rel = case["horizon"] * GRID
@@ -248,6 +268,7 @@ class C15(Prop):
             if close_at is None:
                 server_close_at = draw(st.one_of(st.none(), st.integers(0, horizon), near))
             return {"p": p, "r": r, "t": t, "c": c, "horizon": horizon, "arrivals": arrivals, "server_close_at": server_close_at,
+                    "close_write_delay": draw(st.sampled_from([0, 0, 0, 1, 8, 40])),
                     "close_at": close_at, "reply_at": reply_at, "t_reply": draw(st.sampled_from([0, 0, 3, 10])),
                     "while_closing": while_closing, "auto_pong": draw(st.sampled_from([None, True, False])), "prelude": draw(gen.prelude(6)), "companion": draw(gen.companion(6)), "noise_calls": draw(gen.noise_calls())}
         return case()
@@ -259,15 +280,20 @@ class C15(Prop):
                 for r in sorted(set(RATES)):
                     for t in (None, 0, 1.0, 2.5, 10.0):
                         for c in CTIMEOUTS:
-                            for kind in range(5):
+                            for kind in range(7):
                                 arr = [] if kind != 1 else [[k * 8, "pong"] for k in range(1, 12)]
                                 # kind 3: close(), then close() again every second while the handshake is pending
                                 again = [[8 * k, "close"] for k in range(1, 12)] if kind == 3 else []
                                 for ap in ((None, False) if kind == 1 else (None,)):
                                     yield {"p": p, "r": r, "t": t, "c": c, "horizon": 120, "arrivals": arr,
-                                           "close_at": 24 if kind in (2, 3) else None, "reply_at": None, "t_reply": 3,
+                                           "close_at": 24 if kind in (2, 3, 5) else None, "reply_at": None, "t_reply": 3,
                                            # kind 4: the server closes, the client echoes, the server stays connected
                                            "server_close_at": 24 if kind == 4 else None,
+                                           # kind 5: close() whose Close frame takes 4 s to go out; kind 6: no close at all,
+                                           # but calls that are refused for their arguments (an oversize close reason ...)
+                                           "close_write_delay": 32 if kind == 5 else 0,
+                                           "noise_calls": [{"when": ["event", "poll", 1], "do": "bad_close_reason"},
+                                                           {"when": ["event", "poll", 2], "do": "bad_close_code"}] if kind == 6 else [],
                                            "while_closing": again, "auto_pong": ap}
         return [Enumeration("parameter_grid", grid, exhaustive=True)]
 
